@@ -4,6 +4,7 @@ The combined invariant of the runtime LTS and its lift to every reachable state.
 import CobaldVerif.Lemmas.RuntimeA
 import CobaldVerif.Lemmas.RuntimeB
 import CobaldVerif.Lemmas.RuntimeC
+import CobaldVerif.Lemmas.RuntimeD
 
 namespace Cobald.Runtime
 
@@ -11,11 +12,12 @@ structure Inv (s : St) : Prop where
   a : InvA s
   b : InvB s
   c : InvC s
+  d : InvD s
 
-theorem inv_init : Inv St.init := ⟨invA_init, invB_init, invC_init⟩
+theorem inv_init : Inv St.init := ⟨invA_init, invB_init, invC_init, invD_init⟩
 
 theorem inv_step (s s' : St) (e : Ev) (h : Inv s) (hs : step s e = some s') : Inv s' :=
-  ⟨InvA_step s s' e h.a hs, InvB_step s s' e h.b hs, InvC_step s s' e h.c hs⟩
+  ⟨InvA_step s s' e h.a hs, InvB_step s s' e h.b hs, InvC_step s s' e h.c hs, InvD_step s s' e h.d hs⟩
 
 theorem inv_run (es : List Ev) : ∀ s s', Inv s → run s es = some s' → Inv s' := by
   induction es with
